@@ -214,6 +214,15 @@ eval(struct expr *expr)
 			if (l->kind != EXPRCONST)
 				break;
 			return l->u.constant.u ? r : l;
+		case TDIV:
+		case TMOD:
+			if (l->kind != EXPRCONST || r->kind != EXPRCONST)
+				break;
+			/* leave operations undefined on the host (division by zero, overflow) unfolded */
+			if (l->type->prop & PROPINT && (r->u.constant.u == 0 || l->type->u.basic.issigned && r->u.constant.i == -1 && l->u.constant.i == LLONG_MIN))
+				break;
+			binary(expr, expr->op, l, r);
+			break;
 		default:
 			if (l->kind != EXPRCONST || r->kind != EXPRCONST)
 				break;
